@@ -4,3 +4,5 @@ import DSymVerif.Props.C11
 #print axioms DSymVerif.C11.trace_reduce_invariant
 #print axioms DSymVerif.C11.trace_free_group_invariant
 #print axioms DSymVerif.C11.coset_representative_spec
+#print axioms DSymVerif.C11.join_inverse_consistent
+#print axioms DSymVerif.C11.scan_and_connect_deduction
